@@ -4,7 +4,7 @@ lean/FaxVerif/Gen/Agg.lean) and the real translator.
 Fragment:  ds.Select(e -> {name: GE, ...})
            GE  = literal | chain.Aggregate(seed, lambda acc, v: AE) | GE (+ - * /) GE | GE cmp GE | -GE | not GE
            AE  = literal | acc | v | v.accessor() | AE (+ - * /) AE | -AE          (always numeric)
-           seed = non-negative int / float literal;  chain = coll(bank).{Select(pure) | Where(pure)}*
+           seed = int / float literal, possibly negative (`-3` is emitted as `int acc ((-(3)));`);  chain = coll(bank).{Select(pure) | Where(pure)}*
 
 For every generated query: the model's package text comes from the Lean driver
 (`FaxVerif/Gen/AggDriver.lean`, op `compileA`), the implementation's from the real pipeline
@@ -16,7 +16,8 @@ initialiser and the update statement with or without `static_cast<T>` are compar
 backends. Additionally the model's package is EXECUTED in the Lean semantics on generated events and
 compared with the Lean denotation of the query — an executable instance of
 `aggregateRows_correct_partial` (typed equality inside the proved fragment `wtGE`, numeric equality
-for the widened / cast accumulators outside it).
+for the cast accumulators outside it; the widened accumulators — int seed, floating body, inside the
+theorems over >= 1 kept element — are compared numerically because of the empty events).
 
     run_stream(ctx_or_rng, n) -> (agree, total, first_disagreement)
 
@@ -159,11 +160,11 @@ class AggGen:
         ch, cur = self.lite.chain(r.choice(["obj", "obj", "num", "num", "any"]))
         u = r.random()
         if u < 0.3:
-            seed, want = {"k": "int", "v": r.choice([0, 1, 2, 3, 5])}, "int"            # int seed, int body      (proved)
+            seed, want = {"k": "int", "v": r.choice([0, 1, 2, 3, 5, -1, -3])}, "int"            # int seed, int body      (proved)
         elif u < 0.6:
-            seed, want = {"k": "dbl", "v": r.choice(["0.0", "0.5", "1.0", "2.0", "2.5"])}, "fl"   # float seed, floating body (proved)
+            seed, want = {"k": "dbl", "v": r.choice(["0.0", "0.5", "1.0", "2.0", "2.5", "-0.5", "-2.0"])}, "fl"   # float seed, floating body (proved)
         elif u < 0.82:
-            seed, want = {"k": "int", "v": r.choice([0, 1, 2, 3])}, "fl"                # int seed, floating body: widened
+            seed, want = {"k": "int", "v": r.choice([0, 1, 2, 3, 0, 1, -2])}, "fl"                # int seed, floating body: widened
         elif u < 0.92:
             seed, want = {"k": "dbl", "v": r.choice(["0.0", "0.5", "2.0"])}, "int"       # float seed, int body: static_cast
         else:
@@ -369,8 +370,12 @@ def run_stream(ctx_or_rng, n: int, events_per_query: int = 2) -> Tuple[int, int,
         elif not r["ok"]:
             bad = {"kind": "refused", "what": f"a query of the modelled fragment is refused ({r['error']}: {r.get('message', '')[:200]})"}
         else:
-            if o.get("wt"):
+            if o.get("wtw"):
                 count("inside-proved-fragment")
+            if o.get("wt"):
+                count("inside-proved-fragment:all-exact")
+            if any(str(g["seed"]["v"]).startswith("-") for g in gs):
+                count("seed:negative")
             for g in o.get("aggs", []):
                 count(f"seed:{g['seed']}")
                 count(f"body:{g['body']}")
@@ -378,6 +383,8 @@ def run_stream(ctx_or_rng, n: int, events_per_query: int = 2) -> Tuple[int, int,
                     count("acc:exact")
                 elif g["seed"] == "int":
                     count("acc:widened")
+                    if g.get("widen"):
+                        count("acc:widened:accOK")
                 else:
                     count("acc:static_cast")
                 if not g["base"]:
